@@ -41,7 +41,8 @@ def run(tier, rep, replay=None):
             tp = os.path.join(w, "i-%s-%s.ndjson" % (pkg.replace("/", "_"), label))
             C.run([tb, "-test.run", "TestVerifField", "-test.count=1"], env=dict(os.environ, VERIF_OUT=tp, VERIF_SEED=str(C.SEED), VERIF_N=str(n), VERIF_IMPL=label, **env),
                   timeout=3000, what="in-tree recorder %s %s" % (pkg, label))
-            lines += C.read_ndjson(tp)
+            if os.path.exists(tp):            # absent when the package has no such back-end under this build tag (P-384 under purego)
+                lines += C.read_ndjson(tp)
     bad, states = validate_parallel(w, lines)
     for ln in bad:
         rep.violation("field:%s:%s:%s" % (ln["f"], ln["op"], ln["impl"].split()[-1]), {"observed": ln, "explain": "result is not congruent to the mathematical result / a non-destination register changed / wrong canonical form"})
@@ -66,7 +67,7 @@ def run(tier, rep, replay=None):
                         "volume is boundary-biased sampling (structured whole-element set, full cross product for mul/add/sub), not the 2^512 operand pairs"]
 
 
-INTREE = []
+INTREE = ["ecc/p384", "ecc/fourq", "dh/csidh", "sign/ed25519"]
 
 MANIFEST = {
  "text": "FieldMachine.tla states, per operation, what a finite-field step must satisfy (destination congruent to the mathematical result for any admissible representative, canonical forms for reductions / zero and equality tests / byte export, all other registers unchanged bit for bit, square-root and non-residue certificates, inverse), with the moduli as constants; the same relations are checked exhaustively on toy primes of the same shapes. Recorders drive fp25519, fp448, Goldilocks scalars, BLS12-381 Fp and Scalar, Prio3 fp64/fp128 and the four group scalar fields (and, in package, P-384, FourQ, CSIDH, Ed25519 scalar reduction) through all operations with the structured whole-element operand set (neighbours of multiples of p, limb-boundary powers of two, maxima; full cross product for mul/add/sub), in all aliasing patterns, under three back-end configurations (default asm, purego, BMI2/ADX off), and TLC checks every recorded congruence with multi-precision BigNat arithmetic and untrusted quotient hints.",
